@@ -88,6 +88,9 @@ fn record(stats: &mut Stats, case: &Case, leg: &str, out: &LegOut) {
         stats.add("probe.read_split_across_deliveries", out.stream.split_reads);
         stats.schedules.insert(case.sched.digest());
     }
+    if leg == "simbuf" {
+        stats.schedules.insert(case.sched.digest());
+    }
     if let LegRes::Err { info, depth_limit, .. } = &out.res {
         stats.bump(&format!("errkind.{}", info.kind));
         if *depth_limit {
@@ -160,6 +163,7 @@ impl<'w> Judge<'w> {
             "C07" => self.c07(case),
             "C09" => self.c09(case),
             "C19" => self.c19(case),
+            "C10" => self.c10(case),
             _ => vec![],
         }
     }
@@ -440,6 +444,61 @@ impl<'w> Judge<'w> {
         }
         if o.alloc.max_req > 1 << 20 {
             stats.bump("probe.single_request_over_1MiB");
+        }
+        self.stats = stats;
+        v
+    }
+
+    // ---------------------------------------------------------------- C10
+
+    fn c10(&mut self, case: &Case) -> Vec<Violation> {
+        let tag = case.unit << 20 | case.idx;
+        let bound = Self::alloc_bound(case.bytes.len());
+        let caps = AllocCaps { single: bound, window: bound };
+        let fragmented = case.run_stream;
+        let leg = if fragmented { "simbuf" } else { "bytes" };
+        let o = run_pb(case, fragmented, caps, tag);
+        record(&mut self.stats, case, leg, &o);
+        let mut stats = std::mem::take(&mut self.stats);
+        sample(&mut stats, case, if fragmented { None } else { Some(&o) }, if fragmented { Some(&o) } else { None });
+        stats.add("simbuf.chunk_calls", o.stream.polls);
+        stats.add("probe.simbuf_short_chunk", o.stream.short_reads);
+        let mut v = vec![];
+        let site = format!("{}/{}", leg, case.level.name());
+        match &o.res {
+            LegRes::Panic { site: ps, msg } => v.push(viol(case, "panic", format!("{}@{}", leg, ps), msg.clone())),
+            LegRes::Ok(_) => {
+                if case.expect_refused == Some(true) {
+                    v.push(viol(case, "depth_not_refused", site.clone(), format!("{} decoded without a recursion-limit error", case.note)));
+                }
+                if case.expect.as_deref() == Some("underflow") {
+                    v.push(viol(case, "underflow_accepted", site.clone(), "a length prefix larger than the remaining input was accepted".into()));
+                }
+            }
+            LegRes::Err { info, harness, .. } => {
+                if *harness {
+                    stats.bump("skipped.harness_limit");
+                } else {
+                    if case.expect_refused == Some(true) {
+                        if info.kind == "pb:recursion_limit" {
+                            stats.bump("probe.recursion_limit_error");
+                        } else {
+                            v.push(viol(case, "depth_wrong_error", site.clone(), format!("nesting beyond the limit failed with: {}", info.msg)));
+                        }
+                    }
+                    if case.expect.as_deref() == Some("underflow") {
+                        stats.bump("probe.underflow_rejected");
+                        let copy_bound = 1024 + 2 * case.bytes.len() as u64;
+                        if o.alloc.requested > copy_bound {
+                            v.push(viol(case, "copied_before_reject", site.clone(), format!("{} bytes requested before the oversized length prefix was rejected (bound {})", o.alloc.requested, copy_bound)));
+                        }
+                    }
+                }
+            }
+            LegRes::Hang { .. } | LegRes::LostWake { .. } => {}
+        }
+        if o.alloc.requested > bound {
+            v.push(viol(case, "alloc_bound", site, format!("{} bytes requested for an input of {} bytes (bound {})", o.alloc.requested, case.bytes.len(), bound)));
         }
         self.stats = stats;
         v
